@@ -913,6 +913,7 @@ func mapElemUniverse() []*V {
 		VStrMap(SKV("k", i(1))), VStrMap(SKV("k", i(2))), VStrMap(SKV("k", i(1)), SKV("o", i(7))), VStrMap(SKV("k", VStr("a")), SKV("s", VStr("b"))),
 		VStrMap(SKV("k", VStr("B")), SKV("s", VStr("A"))), VStrMap(SKV("k", VNil())), VStrMap(SKV("o", i(3))), VNil(), i(5),
 		VStrMap(SKV("size", i(0)), SKV("k", i(3))),
+		VMap(TStr, TStr, SKV("k", VStr("b")), SKV("s", VStr("A"))), VMap(TStr, TStr, SKV("k", VStr("A"))), // typed maps as elements: map[string]string
 	}
 }
 
